@@ -391,6 +391,9 @@ impl Tr for YesU { type Assoc = u8; }
 /// A lifetime-indexed marker every type has (for higher-ranked predicates `for<'b> Self: TagL<'b>`).
 pub trait TagL<'b> {}
 impl<'b, T: ?Sized> TagL<'b> for T {}
+/// The same with a type argument (`T: for<'b> TagP<'b, Self>`).
+pub trait TagP<'b, X: ?Sized> {}
+impl<'b, X: ?Sized, T: ?Sized> TagP<'b, X> for T {}
 
 /// Implemented by generated cases for chosen (type, argument) pairs only: `where T: TrG<Self>` then holds for `Self = X<T>`
 /// and for nothing else (in particular not for `&X<T>`).
